@@ -166,4 +166,174 @@ theorem commit_preserves {d : Db} {r : Ref} (hG : Good d r) :
       · show 0 < dF.cfg.chunkRange
         rw [hF.cfg]; exact hG.cr
 
+/-! ### append -/
+
+def initTime (d : Db) (t : Int) : Db :=
+  if d.maxT = MinI64 then { d with maxT := t, minT := if d.minT = MaxI64 then t else d.minT } else d
+def appD (d : Db) (a : App) (t : Int) : Db := if a.init then initTime d t else d
+def appA (d : Db) (a : App) (t : Int) : App :=
+  if a.init then { a with init := false, minValid := (initTime d t).appendableMinValid, headMaxt := (initTime d t).maxT } else a
+
+def appendSpec (d : Db) (a : App) (i : Nat) (t : Int) (v : Nat) : Db × Except AppErr Unit :=
+  let d2 : Db := { appD d a t with app := some (appA d a t) }
+  if d2.cfg.oooWin = 0 ∧ t < (appA d a t).minValid then (d2, .error .oob) else
+  match appendable (d2.getSeries i).phys t v (appA d a t).headMaxt (appA d a t).minValid d2.cfg.oooWin with
+  | .error e => (d2, .error e)
+  | .ok _ => ({ d2 with app := some { appA d a t with batch := (appA d a t).batch ++ [(i, ⟨t, v⟩)] } }, .ok ())
+
+theorem append_eq {d : Db} {a : App} (h : d.app = some a) (i : Nat) (t : Int) (v : Nat) :
+    d.append i t v = appendSpec d a i t v := by
+  unfold Db.append appendSpec appD appA
+  rw [h]
+  simp only
+  cases hinit : a.init
+  · simp only [Bool.false_eq_true, if_false]; rfl
+  · simp only [if_true]
+    unfold initTime
+    split <;> rfl
+
+theorem append_some {d : Db} {a : App} (h : d.app = some a) (i : Nat) (t : Int) (v : Nat) :
+    (∃ e, d.append i t v = ({ appD d a t with app := some (appA d a t) }, .error e)) ∨
+    (d.append i t v = ({ appD d a t with app := some { appA d a t with batch := (appA d a t).batch ++ [(i, ⟨t, v⟩)] } }, .ok ())
+      ∧ ((appD d a t).cfg.oooWin = 0 → (appA d a t).minValid ≤ t)) := by
+  rw [append_eq h]
+  unfold appendSpec
+  simp only
+  split
+  · left; exact ⟨_, rfl⟩
+  · rename_i hc
+    split
+    · left; exact ⟨_, rfl⟩
+    · right; refine ⟨rfl, ?_⟩
+      intro h0; omega
+
+theorem initTime_series (d : Db) (t : Int) : (initTime d t).series = d.series := by
+  unfold initTime; split <;> rfl
+theorem initTime_blocks (d : Db) (t : Int) : (initTime d t).blocks = d.blocks := by
+  unfold initTime; split <;> rfl
+theorem initTime_minValid (d : Db) (t : Int) : (initTime d t).minValid = d.minValid := by
+  unfold initTime; split <;> rfl
+theorem initTime_cfg (d : Db) (t : Int) : (initTime d t).cfg = d.cfg := by
+  unfold initTime; split <;> rfl
+theorem appD_series (d : Db) (a : App) (t : Int) : (appD d a t).series = d.series := by
+  unfold appD; split; exact initTime_series d t; rfl
+theorem appD_blocks (d : Db) (a : App) (t : Int) : (appD d a t).blocks = d.blocks := by
+  unfold appD; split; exact initTime_blocks d t; rfl
+theorem appD_minValid (d : Db) (a : App) (t : Int) : (appD d a t).minValid = d.minValid := by
+  unfold appD; split; exact initTime_minValid d t; rfl
+theorem appD_cfg (d : Db) (a : App) (t : Int) : (appD d a t).cfg = d.cfg := by
+  unfold appD; split; exact initTime_cfg d t; rfl
+theorem appA_init (d : Db) (a : App) (t : Int) : (appA d a t).init = false := by
+  unfold appA; cases h : a.init <;> simp [h]
+theorem appA_batch (d : Db) (a : App) (t : Int) : (appA d a t).batch = a.batch := by
+  unfold appA; split <;> rfl
+
+theorem invS_initTime {d : Db} (h : InvS d) {t : Int} (ht : MinI64 ≤ t) : InvS (initTime d t) := by
+  unfold initTime
+  split
+  · rename_i hmax
+    refine
+      { idxNodup := h.idxNodup, physInc := h.physInc, physNe := h.physNe, physLo := ?_, physHi := ?_,
+        physMax := h.physMax, tombHi := h.tombHi, blkInc := h.blkInc, blkRange := h.blkRange,
+        blkLtMinT := ?_, blkLtMinValid := h.blkLtMinValid, blkLtMaxT := ?_, blkMax := h.blkMax }
+    · intro s hs x hx
+      have h1 := h.physLo s hs x hx
+      have h2 := h.physMax s hs x hx
+      simp only
+      split <;> omega
+    · intro s hs x hx
+      have h1 := h.physHi s hs x hx
+      simp only; omega
+    · intro b hb s hs x hx
+      have h1 := h.blkLtMinT b hb s hs x hx
+      have h2 := h.blkLtMaxT b hb s hs x hx
+      simp only at h1 h2 ⊢
+      split <;> omega
+    · intro b hb s hs x hx
+      have h2 := h.blkLtMaxT b hb s hs x hx
+      simp only at h2 ⊢
+      omega
+  · exact h
+
+theorem invS_appD {d : Db} (h : InvS d) (a : App) {t : Int} (ht : MinI64 ≤ t) : InvS (appD d a t) := by
+  unfold appD; split
+  · exact invS_initTime h ht
+  · exact h
+
+theorem appA_blkLt {d : Db} {a : App} (hI : Inv d) (hA : AppInv d a) (t : Int) :
+    d.blkAll (fun x => x.t < (appA d a t).minValid) := by
+  unfold appA
+  cases hinit : a.init
+  · simp only [Bool.false_eq_true, if_false]; exact hA.blkLt hinit
+  · simp only [if_true]
+    intro b hb s hs x hx
+    have := hI.blkLtMinValid b hb s hs x hx
+    simp only [Db.appendableMinValid, initTime_minValid] at this ⊢
+    omega
+
+theorem appA_batchGe {d : Db} {a : App} (hA : AppInv d a) (t : Int) :
+    ∀ p ∈ (appA d a t).batch, (appA d a t).minValid ≤ p.2.t ∧ p.2.t < MaxI64 := by
+  unfold appA
+  cases hinit : a.init
+  · simp only [Bool.false_eq_true, if_false]; exact hA.batchGe
+  · simp only [if_true]
+    rw [hA.initBatch hinit]; simp
+
+theorem append_preserves {d : Db} {r : Ref} (hG : Good d r) (i : Nat) (t : Int) (v : Nat)
+    (ht : MinI64 ≤ t ∧ t < MaxI64) :
+    Good (d.append i t v).1
+      (if (outOfRes (d.append i t v).2).isOk = true ∧ r.open_ = true then
+        { r with pending := r.pending ++ [(i, ⟨t, v⟩)] } else r) := by
+  have hI := hG.inv
+  have hS := hG.sim
+  cases happ : d.app with
+  | none =>
+    have : d.append i t v = (d, .error .noapp) := by unfold Db.append; rw [happ]
+    rw [this]
+    simp only [outOfRes, Out.isOk, Bool.false_eq_true, false_and, if_false]
+    exact hG
+  | some a =>
+    have hSa := hS.app
+    rw [happ] at hSa
+    simp only at hSa
+    have hA := hI.appInv a happ
+    have hIS : InvS (appD d a t) := invS_appD hI.toInvS a ht.1
+    have hmem : ∀ (x : Option App) j z, (({ appD d a t with app := x } : Db)).mem j z ↔ d.mem j z :=
+      fun x j z => Db.mem_congr (appD_series d a t) (appD_blocks d a t) j z
+    rcases append_some happ i t v with ⟨e, he⟩ | ⟨he, hge⟩
+    · rw [he]
+      simp only [outOfRes, Out.isOk, Bool.false_eq_true, false_and, if_false]
+      refine ⟨⟨hIS.congr rfl rfl rfl rfl rfl, ?_⟩, hG.lastVis.congr (appD_series d a t),
+        ⟨hS.sinc, fun j z => (hmem _ j z).trans (hS.mem j z), ?_⟩, ?_, ?_⟩
+      · intro a' ha'
+        simp only [Option.some.injEq] at ha'
+        subst ha'
+        refine ⟨fun h => by rw [appA_init] at h; simp at h, fun _ => ?_, appA_batchGe hA t⟩
+        exact (Db.blkAll_congr (appD_blocks d a t) _).2 (appA_blkLt hI hA t)
+      · simp only; rw [appA_batch]; exact hSa
+      · show (appD d a t).cfg.oooWin = 0
+        rw [appD_cfg]; exact hG.ooo
+      · show 0 < (appD d a t).cfg.chunkRange
+        rw [appD_cfg]; exact hG.cr
+    · rw [he]
+      simp only [outOfRes, Out.isOk, hSa.1, and_self, if_true]
+      refine ⟨⟨hIS.congr rfl rfl rfl rfl rfl, ?_⟩, hG.lastVis.congr (appD_series d a t),
+        ⟨hS.sinc, fun j z => (hmem _ j z).trans (hS.mem j z), ?_⟩, ?_, ?_⟩
+      · intro a' ha'
+        simp only [Option.some.injEq] at ha'
+        subst ha'
+        refine ⟨fun h => by simp only [appA_init] at h; simp at h, fun _ => ?_, ?_⟩
+        · exact (Db.blkAll_congr (appD_blocks d a t) _).2 (appA_blkLt hI hA t)
+        · intro p hp
+          simp only [List.mem_append, List.mem_singleton] at hp
+          rcases hp with hp | rfl
+          · exact appA_batchGe hA t p hp
+          · have := hge (by rw [appD_cfg]; exact hG.ooo)
+            exact ⟨this, ht.2⟩
+      · simp only; rw [appA_batch, hSa.2]; simp [hSa.1]
+      · show (appD d a t).cfg.oooWin = 0
+        rw [appD_cfg]; exact hG.ooo
+      · show 0 < (appD d a t).cfg.chunkRange
+        rw [appD_cfg]; exact hG.cr
+
 end Prom.Db
